@@ -18,6 +18,7 @@ _TRUSTED = ["plug-in instances from plugin.NewReportingPluginFactory with in-mem
             "Model/Validate.v (validation model, tied to the code by the C15 check)"]
 
 CFG = dict(
+    shrink_fields=['obs'],
     pkg="c01",
     tests=["TestC05"],
     n_quick=120, n_thorough=500, shards_thorough=6, timeout_quick=900, timeout_thorough=3000,
